@@ -63,6 +63,15 @@ def tasks(tier, seed):
                     else:
                         ts.append({"kind": "responsive", "iv": iv, "to": None, "pat": "none", "payload": payload, "traffic": traffic, "bound": 2,
                                    "name": "pings-only/%s/%s/%s" % (iv, payload, traffic)})
+    # the measured connection is the SECOND run_forever() of the same object, after a run that ended with an error (connection lost): the
+    # keepalive must work exactly as on a first connection
+    for iv, to in ((2, 1), (3, 1), (2.5, 2)):
+        for traffic in ("none", "chatty"):
+            ts.append({"kind": "silent", "iv": iv, "to": to, "j": 1, "payload": "k", "traffic": traffic, "bound": 2, "prior": "errored-run",
+                       "name": "after-errored-run/silent/%s/%s/j1/%s" % (iv, to, traffic)})
+            for pat in ("0", "to"):
+                ts.append({"kind": "responsive", "iv": iv, "to": to, "pat": pat, "payload": "k", "traffic": traffic, "bound": 2, "prior": "errored-run",
+                           "name": "after-errored-run/responsive/%s/%s/%s/%s" % (iv, to, pat, traffic)})
     # line-level: the ping thread preempting the loop (and vice versa) at every executed library line, for pairs where ping instants and
     # select deadlines coincide (interval a multiple of the timeout) and where they do not
     for iv, to in (((2, 1),) if tier == "quick" else ((2, 1), (3, 1), (2.5, 2), (4, 2))):
@@ -144,6 +153,11 @@ class Harness:
             mk = (lambda: tnet.ServerPeer(script=script, on_ping=("pattern", pat))) if pat else (lambda: tnet.ServerPeer(script=script, on_ping=None))
         spec = {"url": "ws://h.example/", "callbacks": ["on_open", "on_message", "on_error", "on_close", "on_ping", "on_pong"], "attempts": [mk],
                 "run_kwargs": run_kwargs, "horizon": 400.0, "max_steps": 30000 if not d.get("line") else 200000, "line_level": bool(d.get("line"))}
+        if d.get("prior") == "errored-run":
+            lost_at = iv + 0.5
+            spec["attempts"] = [lambda: tnet.ServerPeer(script=[(lost_at, "eof", b"")], on_ping=("all", 0.0))]
+            spec["second_run"] = True
+            spec["second_attempts"] = [mk]
         run = appsim.AppRun(ch, spec)
         res = run.execute()
         self.steps += run.sched.steps
@@ -159,7 +173,21 @@ class Harness:
         def V(k, what, **extra):
             return Violation(dict({"kind": k, "scenario": kind}, **extra), "%s: %s" % (name, what), detail={"trace": repr(run.trace)[:2000]})
 
-        out = (res["ret"] or [None])[0] if not res["abort"] else None
+        out = (res["ret"] or [None])[-1] if not res["abort"] else None
+        trace = run.callback_trace()
+        t0 = 0.0
+        if d.get("prior"):
+            # only the last run is measured; its clock starts at its on_open
+            marks = [i for i, e in enumerate(run.trace) if e[1] == "--second-run--"]
+            if not marks or len(res["ret"] or []) != 2:
+                if res["abort"]:
+                    raise V("no-termination", "the run did not end: %s" % res["abort"], ratio=_ratio(iv, to))
+                raise V("run-forever-raised", "expected two runs, got %r" % (res["ret"],))
+            trace = [e for e in run.trace[marks[-1]:] if not e[1].startswith("--")]
+            opens = [e for e in trace if e[1] == "on_open"]
+            if not opens:
+                raise V("no-termination", "the second run never opened its connection")
+            t0 = opens[0][0]
         if kind == "invalid":
             if res["abort"] or out is None or out[0] != "exc" or "WebSocket" not in out[1]:
                 raise V("invalid-settings-accepted", "ping_interval=%r ping_timeout=%r was not refused: %r %r" % (iv, to, out, res["abort"]), pair="%s/%s" % (iv, to))
@@ -170,10 +198,10 @@ class Harness:
             raise V("no-termination", "the run did not end: %s" % res["abort"], ratio=_ratio(iv, to))
         if out is None or out[0] != "ret":
             raise V("run-forever-raised", "valid settings interval=%r timeout=%r: run_forever raised %r" % (iv, to, out))
-        peer = run.net.peers[0] if run.net.peers else None
-        pings = [(t, f) for t, f in (peer.client_frames if peer else []) if f.opcode == R.PING]
-        errs = [e for e in run.callback_trace() if e[1] == "on_error"]
-        closes = [e for e in run.callback_trace() if e[1] == "on_close"]
+        peer = run.net.peers[-1] if run.net.peers else None
+        pings = [(t - t0, f) for t, f in (peer.client_frames if peer else []) if f.opcode == R.PING]
+        errs = [(e[0] - t0,) + tuple(e[1:]) for e in trace if e[1] == "on_error"]
+        closes = [(e[0] - t0,) + tuple(e[1:]) for e in trace if e[1] == "on_close"]
         end_t = closes[0][0] if closes else None
         if kind == "nopings":
             if pings:
